@@ -277,22 +277,32 @@ def run(tier: str, seed: int) -> Report:
     rep.add_tlc(res, "MC_UdsClientMutexRefine (design refines the lock core; IndInv on reachable states)")
     if not res.ok:
         rep.violate(f"design/refinement/{res.violated}", {"where": "UdsClientMutex -> UdsClientLockInd"}, {"cex": res.cex[-8:]})
-    apa = []
-    for label, mod, init, inv, length, want_ok in [
+    # the four Apalache obligations are independent processes: started here, collected after the enumeration below
+    import concurrent.futures as _cf
+    apa_jobs = [
         ("base: Init => IndInv", "MC_UdsClientLockInd", "Init", "IndInv", 0, True),
         ("step: IndInv /\\ Next => IndInv'", "MC_UdsClientLockInd", "IndInit", "IndInv", 1, True),
         ("use: IndInv => M1 /\\ M3", "MC_UdsClientLockInd", "IndInit", "Safety", 0, True),
         ("negative control: lock released in the pending loop breaks the step", "MC_UdsClientLockInd_dev", "IndInit", "IndInv", 1, False),
-    ]:
-        a = tlc.run_apalache(mod, init=init, inv=inv, length=length, timeout=1200)
-        apa.append({"obligation": label, "module": mod, "init": init, "inv": inv, "length": length,
-                    "outcome": "NoError" if a.ok else "Error", "wall_s": round(a.wall_s, 1)})
-        if want_ok and not a.ok:
-            rep.violate("design/inductive-invariant", {"where": "UdsClientLockInd", "obligation": label}, {"out": a.out[-1500:]})
-        if not want_ok and a.ok:
-            raise Machinery(f"apalache negative control did not fail: {label}")
-    rep.extra["apalache"] = {"version": "0.58.0", "callers": 6, "obligations": apa,
-                             "meaning": "inductive invariant of the lock core: holds for behaviours of ANY length"}
+    ]
+    apa_pool = _cf.ThreadPoolExecutor(max_workers=4)
+    apa_futs = [apa_pool.submit(tlc.run_apalache, mod, init=init, inv=inv, length=length, timeout=1800)
+                for (_l, mod, init, inv, length, _w) in apa_jobs]
+
+    def collect_apalache() -> None:
+        apa = []
+        for (label, mod, init, inv, length, want_ok), fut in zip(apa_jobs, apa_futs):
+            a = fut.result()
+            apa.append({"obligation": label, "module": mod, "init": init, "inv": inv, "length": length,
+                        "outcome": "NoError" if a.ok else "Error", "wall_s": round(a.wall_s, 1)})
+            if want_ok and not a.ok:
+                rep.violate("design/inductive-invariant", {"where": "UdsClientLockInd", "obligation": label}, {"out": a.out[-1500:]})
+            if not want_ok and a.ok:
+                raise Machinery(f"apalache negative control did not fail: {label}")
+        apa_pool.shutdown()
+        rep.extra["apalache"] = {"version": "0.58.0", "callers": 6, "obligations": apa,
+                                 "meaning": "inductive invariant of the lock core: holds for behaviours of ANY length"}
+
 
     traces: list[dict[str, Any]] = []
     seen: set[str] = set()
@@ -352,6 +362,7 @@ def run(tier: str, seed: int) -> Report:
         vec = [rnd.randrange(6) for _ in range(40)]
         add(run_schedule(ListChooser(vec), names, kinds=kinds, tp=rnd.random() < 0.5, retry=rnd.choice([0, 1]),
                          scripts=SCRIPTS), "random-4-5callers")
+    collect_apalache()
     verdicts, results = validate(traces)
     for r in results:
         rep.add_tlc(r, "Trace_UdsClientMutex batch")
